@@ -126,13 +126,16 @@ pub fn make_case_kind(mut plan: Plan, kind_index: usize, decoy_first: bool, befo
                         plan.spec.use_date_header = kind == XAmzDateBesideDateHeader;
                         // ... or, when the decoy is in place before signing, sign one, the other or both date headers:
                         // which of them is covered by the signature must not change which one supplies the timestamp
-                        if before_signing && matches!(kind, DateHeaderBesideXAmzDate | XAmzDateBesideDateHeader) {
+                        if matches!(kind, DateHeaderBesideXAmzDate | XAmzDateBesideDateHeader) {
                             let pick = decoy_delta_s.unsigned_abs() % 4;
+                            // a header can be signed if it is there when the request is signed: the genuine one always is,
+                            // the decoy only when it is inserted before signing
+                            let (genuine, decoy) = if kind == XAmzDateBesideDateHeader { ("date", "x-amz-date") } else { ("x-amz-date", "date") };
                             if pick & 1 != 0 {
-                                plan.spec.signed_headers.push("date".into());
+                                plan.spec.signed_headers.push(genuine.into());
                             }
-                            if pick & 2 != 0 {
-                                plan.spec.signed_headers.push("x-amz-date".into());
+                            if pick & 2 != 0 && before_signing {
+                                plan.spec.signed_headers.push(decoy.into());
                             }
                             plan.spec.signed_headers.sort();
                         }
@@ -199,8 +202,9 @@ fn apply_dup(dc: &DupCase, req: &mut WireRequest, signed: bool) {
     let p = &dc.plan;
     let mut decoy_ts = render(p.instant.add_nanos(dc.decoy_delta_s as i128 * 1_000_000_000), p.style);
     if dc.decoy_delta_s.unsigned_abs() % 5 == 2 {
-        // a date that is no ISO 8601 timestamp at all: if the rule selects it, the request has no usable date
-        decoy_ts = ["Sun, 30 Aug 2015 12:36:00 GMT", "20150830", "20150830T123600", "1440938160", "", "2015-08-30 12:36:00Z"][(dc.decoy_delta_s.unsigned_abs() / 5 % 6) as usize].to_string();
+        // a date the reference parser must refuse (missing zone, field out of range, trailing character, impossible day):
+        // if the rule selects it, the request has no usable date
+        decoy_ts = ["20150830T123600", "20151330T123600Z", "20150830T123600Zx", "20150230T123600Z", "20150830T126000Z", "2015-08-30T12:36:00+01:60"][(dc.decoy_delta_s.unsigned_abs() / 5 % 6) as usize].to_string();
     }
     let enc = |s: &str| crate::model::canon::pct_encode(s.as_bytes());
     let decoy_cred = format!("AKIADECOY0000000/{}/{}/{}/aws4_request", p.instant.date8(), p.cfg.region, p.cfg.service);
